@@ -52,6 +52,27 @@ Theorem C15_reads_independent :
 Proof. exact reads_independent. Qed.
 Print Assumptions C15_reads_independent.
 
+(* Every read path of a request (get_cookie, cookies[name], attribute access /
+   getunicode, decode(), headers['Cookie']) is a function of the Cookie header in
+   force: after request['HTTP_COOKIE'] = h' (or del, or __init__ on a new environ)
+   the following reads are exactly the reads of a request that carries h'. *)
+Theorem C15_reads_follow_updates :
+  forall (val : Type) (mac : list N -> list N -> list N) (loads : list N -> @lres val)
+         (h h' : option str) (a b : list qop),
+    request_run val mac loads h (a ++ QSetHeader h' :: b)
+    = request_run val mac loads h a ++ request_run val mac loads h' b.
+Proof. exact reads_follow_updates. Qed.
+Print Assumptions C15_reads_follow_updates.
+
+(* FINDING F18d: request.cookies.<name> / getunicode re-read the value as UTF-8:
+   Latin-1 text reads as absent or altered, text above U+00FF comes back intact *)
+Theorem C15_attribute_read_latin1_refuted :
+  attr_rt [97] [99; 97; 102; 233] = Some (QRStr None)
+  /\ attr_rt [97] [1103] = Some (QRStr (Some [1103]))
+  /\ attr_rt [97] [194; 163] = Some (QRStr (Some [163])).
+Proof. exact attr_read_witnesses. Qed.
+Print Assumptions C15_attribute_read_latin1_refuted.
+
 (* BaseResponse.copy: afterwards set_cookie / delete_cookie on the copy leave the
    cookies of the original exactly as they were and vice versa, and at the moment of
    the copy the copy holds the same morsels (key, value, coded value, delete
